@@ -252,15 +252,17 @@ def gen_histories(ck, n, steps, kind, nh=4, nv=3):
             elif op == "settyped":
                 k = count(h)
                 off = rng.choice([0, 0, 1, -1, -2, near(est[h]), est[h], est[h] // 2, -est[h], -est[h] - 1])
+                f = 0 if z else fail(h, k)
                 beh.append({"a": op, "arg": {"h": h + 1, "data": [0] * k if z else fresh(k), "off": off, "zero": z,
-                                             "fail": 0 if z else fail(h, k)}})
+                                             "fail": f, "fm": 1 if f and rng.random() < 0.3 else 0}})
                 p = off + (est[h] if off < 0 else 0)
                 if p >= 0:
                     est[h] = max(est[h], p + k)
             elif op == "bufset":
                 k, p = count(h), position(h)
+                f = 0 if z or kind != "rec" or rng.random() < 0.7 else rng.randrange(1, k + 2)
                 beh.append({"a": op, "arg": {"h": h + 1, "pos": p, "data": [0] * k if z else fresh(k), "zero": z,
-                                             "fail": 0 if z or kind != "rec" or rng.random() < 0.7 else rng.randrange(1, k + 2)}})
+                                             "fail": f, "fm": 1 if f and rng.random() < 0.3 else 0}})
             elif op == "bufcut":
                 p = position(h)
                 k = rng.choice([0, 0, 1, 2, max(0, est[h] - p), max(0, est[h] - p) + 1, est[h]])
